@@ -175,3 +175,29 @@ rule('f64-ast', '*', '*', PANIC_KINDS, ['C01'])
 rule('f64-ast', '*', '*', ['decreases'], ['C02'])
 for a in ('Factorial', 'LambertW', 'ILog'):
     rule('f64-ast', 'eval', a, ['invariant', 'overflow'], ['C02'])      # the iteration caps
+
+
+# ---- eval_number::ast + number.rs (unit number-ast): Integer results exact when they fit, else the Float of the operands; Float /
+# mixed arms apply the IEEE / libm primitive; Number::from(f64) as C18 states it
+NUM_ARITH = ['Add', 'Subtract', 'Multiply', 'Divide', 'Modulo', 'Negative', 'Pow', 'Abs', 'Sign', 'Factorial', 'Floor', 'Ceil', 'Round', 'Truncate']
+for a in NUM_ARITH:
+    rule('number-ast', 'eval', a, ['post', 'assert', 'invariant'], ['C09', 'C15'])
+for a in F64_FUNCS:
+    rule('number-ast', 'eval', a, ['post', 'assert'], ['C10'])
+for a in ('Arsinh', 'Arcosh', 'Artanh', 'Pow', 'Modulo'):
+    rule('number-ast', 'eval', a, ['post', 'assert'], ['C13'])
+for a in F64_AGG:
+    rule('number-ast', 'eval', a, ['post', 'invariant', 'assert'] + PANIC_KINDS, ['C11'])
+for a in ('Min', 'Max'):
+    rule('number-ast', 'eval', a, ['post', 'invariant', 'assert'], ['C15'])
+rule('number-ast', 'eval', 'Num', ['post'], ['C09', 'C14'])
+rule('number-ast', 'eval', '*', ['post', 'assert'], ['C20'])
+rule('number-ast', 'from*', '*', ['post', 'assert'], ['C18', 'C09', 'C10', 'C15'])
+rule('number-ast', '*', '*', PANIC_KINDS, ['C01'])
+rule('number-ast', '*', '*', ['decreases'], ['C02'])
+for a in ('Factorial', 'LambertW', 'ILog'):
+    rule('number-ast', 'eval', a, ['invariant', 'overflow'], ['C02'])
+
+
+# ---- the cost contract of every evaluator (T24 ghost step counter): eval makes at most cost(expr) = |nodes| calls (C02)
+rule('*-ast', '*', '*', ['cost'], ['C02'])
